@@ -329,7 +329,22 @@ func runC19(e *sim.Env) {
 		oldPath, newPath := tip.PathFromGenesis(), x.PathFromGenesis()
 		var aerr error
 		var crash string
-		e.WithSchedule(300, func() {
+		// every write to the disk is a scheduling point, and every commit of the
+		// phase is kept: what a stop at that moment would leave behind
+		var images []*simdisk.Image
+		// (a commit waits a drawn number of scheduling points first, so that it
+		// can land anywhere among the other goroutine's writes)
+		flushWait := e.Range(0, 400)
+		disk.Yield = func(site string) {
+			if site == "disk.flush" {
+				for i := 0; i < flushWait; i++ {
+					sim.YieldPoint("disk.flush-wait")
+				}
+			}
+			sim.YieldPoint(site)
+		}
+		disk.OnCommit = func(im *simdisk.Image) { images = append(images, im) }
+		e.WithSchedule(2000, func() {
 			var wg sync.WaitGroup
 			guard := func(fn func()) {
 				wg.Add(1)
@@ -352,11 +367,24 @@ func runC19(e *sim.Env) {
 			})
 			wg.Wait()
 		})
+		disk.Yield, disk.OnCommit = nil, nil
 		if crash != "" {
 			if sim.PanicInSUT(crash) {
 				e.Violationf("C19.panic", "concurrent-prune", "PruneBlocks concurrent with AddBlocks panicked: %.1500s", crash)
 			}
 			panic("C19 concurrent phase: " + crash)
+		}
+		// every commit made meanwhile reopens to a valid chain whose served
+		// elements are the reference ledger's at that tip
+		for k, im := range images {
+			rs, err := reopenChainSUT(net, simdisk.FromImage(im))
+			if err != nil {
+				e.Violationf("C19.reopen", "reopen-error:concurrent", "commit %d made while PruneBlocks(%d) ran next to a reorg does not reopen: %v", k, h, err)
+			}
+			var rt *gen.Node
+			e.Guard("C19.panic", "audit(reopened commit)", func() { rt = auditBestChain(e, "C19", rs, tree) })
+			e.Guard("C19.panic", "ledger(reopened commit)", func() { compareWithLedger(e, "C19", rs, rt) })
+			e.Probe("concurrent_phase_commit_reopened")
 		}
 		prunes++
 		e.Fault("prune-concurrent-with-reorg")
@@ -399,7 +427,7 @@ func runC19(e *sim.Env) {
 func init() {
 	register(&Prop{
 		ID: "C19", Run: runC19, Flavour: "instrumented", Quick: 900, Thorough: 20000, Level: "exploration",
-		Rule:        "one run = C01-style history on a node that is pruned at drawn moments (height 0, mid-chain, tip, tip+1, beyond the tip; repeated) and crashed/reopened now and then, next to an unpruned twin receiving the same submissions; after every prune and every submission: exactly the best-chain bodies below the pruned heights are gone, headers/states/best index/History/Headers/tip/element view equal the twin's, MinReorgIndex is the lowest height with contiguous bodies, UpdatesSince/BlocksForHistory either answer like the twin or fail with an error when a pruned body is needed, forks with fork point at or above MinReorgIndex give the twin's outcome, forks below fail with an error and leave the node unchanged; half of the runs end with a PruneBlocks call concurrent with a reorg that reverts blocks below the prune height (seeded lock-yield scheduler): the result is that of one of the two orders; distinct = abstract trace (prune kinds, reorg depth buckets); non-trivial = at least one prune",
+		Rule:        "one run = C01-style history on a node that is pruned at drawn moments (height 0, mid-chain, tip, tip+1, beyond the tip; repeated) and crashed/reopened now and then, next to an unpruned twin receiving the same submissions; after every prune and every submission: exactly the best-chain bodies below the pruned heights are gone, headers/states/best index/History/Headers/tip/element view equal the twin's, MinReorgIndex is the lowest height with contiguous bodies, UpdatesSince/BlocksForHistory either answer like the twin or fail with an error when a pruned body is needed, forks with fork point at or above MinReorgIndex give the twin's outcome, forks below fail with an error and leave the node unchanged; half of the runs end with a PruneBlocks call concurrent with a reorg that reverts blocks below the prune height (seeded lock-yield scheduler, every disk write a scheduling point, commits delayed by a drawn number of points): the result is that of one of the two orders, and every commit made meanwhile reopens to a valid chain with the reference ledger's elements; distinct = abstract trace (prune kinds, reorg depth buckets); non-trivial = at least one prune",
 		Real:        []string{"chain.Manager", "chain.DBStore (pruned node and unpruned twin)"},
 		Stub:        []string{"disk: simdisk.DB"},
 		Assumptions: []string{"blocks handed to the node again after pruning may or may not be served again (documented as unsupported); everything else about them is still checked"},
